@@ -667,9 +667,12 @@ def directed(prop):
         # end): unselected tests lie behind the test that is running when SIGINT arrives
         tests = [dict(bin="alpha::t1", name="t00_a", ignored=False,
                       attempts=[{"sleep": 1.5, "exit": 0, "on_term": "die"}], expect=["pass"], mode="pass")]
+        # (the next selected test is already held by the scheduler; the unselected ones come after it)
+        tests += [dict(bin="alpha::t1", name="t01_a", ignored=False, attempts=[{"sleep": 0.02, "exit": 0}],
+                       expect=["pass"], mode="pass")]
         tests += [dict(bin="alpha::t1", name=f"t{i:02d}_b", ignored=False, attempts=[{"sleep": 0.02, "exit": 0}],
-                       expect=["pass"], mode="pass") for i in range(1, 5)]
-        tests += [dict(bin="beta::t1", name="t05_b", ignored=True, attempts=[{"sleep": 0.02, "exit": 0}],
+                       expect=["pass"], mode="pass") for i in range(2, 6)]
+        tests += [dict(bin="beta::t1", name="t07_b", ignored=True, attempts=[{"sleep": 0.02, "exit": 0}],
                        expect=["pass"], mode="pass"),
                   dict(bin="beta::t1", name="t06_a", ignored=False, attempts=[{"sleep": 0.02, "exit": 0}],
                        expect=["pass"], mode="pass")]
